@@ -97,6 +97,23 @@ class Ctx:
         if isinstance(accepted, str):
             accepted = [accepted]
         from . import exprdiff
+        from .callnorm import positionalise
+
+        # package-internal calls in one argument form: keyword arguments moved into their positional slots
+        try:
+            derived_expr = positionalise(self.repo, derived_expr)
+        except Exception:
+            pass
+        # ... the accepted spellings likewise (a rule may spell `format=ORDER_FORMAT.BOGUS_IDS`)
+        import ast as _ast
+
+        norm = []
+        for a in accepted:
+            try:
+                norm.append(_ast.unparse(positionalise(self.repo, _ast.parse(a, mode="eval").body)))
+            except Exception:
+                norm.append(a)
+        accepted = norm
 
         with exprdiff.scope(exprdiff.SCOPE if exprdiff.SCOPE is not None else self.scope_names(construct)):
             ok, why = compare(derived_expr, accepted)
